@@ -53,7 +53,7 @@ def cmp_siginfo(si, r, cert=False):
             d.append('validity')
         ad = getattr(si, 'additional_description', None)
         got_ad = None if ad is None else [(bl(x.description_key), bl(x.description_value)) for x in (ad.description_entry or [])]
-        if got_ad != r.get('add_desc'):
+        if r.get('add_desc_regular', True) and got_ad != r.get('add_desc'):
             d.append('additional_description')
     return d
 
@@ -262,7 +262,15 @@ def judge(ctx, dec, wire, klass, wellformed=False, steps=True):
         return
     if ref_rej is not None:
         if ref_rej.reason in rc.STATED_REASONS:
-            if ref_rej.reason == 'overrun' and ref_rej.where == 'model' and not (dec != 'lp' and ref_rej.detail.startswith('type 7 ')):
+            top_name = False
+            if dec != 'lp' and ref_rej.reason == 'overrun' and ref_rej.detail.startswith('type 7 at '):
+                # the packet's own Name element (first child of the outer element) - not a Name nested further down, not a type-7
+                # element at some other place (those the unchanged library slices like any other value: the open finding)
+                try:
+                    top_name = int(ref_rej.detail.split()[3]) == rc.outer(wire, rc.read_var(wire, 0, len(wire))[0])[1]
+                except (rc.Reject, KeyError, ValueError, IndexError):
+                    top_name = False
+            if ref_rej.reason == 'overrun' and ref_rej.where == 'model' and not top_name:
                 # a field of a TLV container (not a Name element, not a Name component) extends past its parent
                 mech = 'inner-overrun-accepted'
                 _m = re.match(r'type (\d+) at (\d+) length (\d+) ', ref_rej.detail)
